@@ -260,6 +260,32 @@ def check(ctx):
     dd = find("dependents = reverse_dict(dependencies)", order)
     ok = len(dp) == 1 and len(dd) == 1 and dominates(order, dp[0][0], dd[0][0]) and [d_[2] for d_ in reaching_of(order).reaching(dd[0][0], "dependencies")] == [dp[0][0]]
     ctx.ob("OWN.dependents-from-graph", order, "dependents = reverse_dict(DependenciesMapping(dsk)) -- computed from this graph, including references to keys outside it", ok, "" if ok else "the reverse mapping comes from the caller's `dependencies` argument, which only lists in-graph keys: references to outside keys are no longer detected and ordering an acyclic graph raises")
+    # ---------------- data nodes detached from the graph still get a priority: whoever is removed hands its pending ones on
+    norm = [w for w in walk_no_nested(order) if isinstance(w, ast.While) and unparse(w.test) == "not all_tasks"]
+    dels = [d for d in ast.walk(norm[0]) if isinstance(d, ast.Delete) and unparse(d.targets[0]).startswith("dsk[")] if norm else []
+    ctx.count("graph_removals", len(dels))
+    ctx.floor("graph_removals", 2, "del dsk[leaf] / del dsk[root] in the normalisation loop")
+    for d in dels:
+        x = unparse(d.targets[0].slice)
+        sibs = [s for s in ast.walk(norm[0]) if isinstance(s, ast.stmt)]
+        registered = bool(find(f"requires_data_task[M_d].add({x})", norm[0]))
+        placed = any(unparse(s.targets[0]) == f"result[{x}]" for s in sibs if isinstance(s, ast.Assign))
+        if registered:
+            ctx.ob("PAIR.detached-data.registered", d, f"{unparse(d)}: {x} is registered with every dependent (requires_data_task[dep].add({x})) and placed with the first of them", True)
+        elif placed:
+            fw = find(f"requires_data_task[M_h] |= requires_data_task.pop({x})", norm[0])
+            guard = getattr(fw[0][0], "_parent", None) if fw else None
+            guarded = isinstance(guard, ast.If) and unparse(guard.test) in (f"{x} in requires_data_task", f"requires_data_task[{x}]") and not guard.orelse
+            ok = len(fw) == 1 and (dominates(order, fw[0][0], d) or (guarded and dominates(order, guard, d))) and bool(find(f"M_h = next(iter(dependencies[{x}]))", norm[0])) and unparse(fw[0][1]["M_h"]) == unparse(find(f"M_h = next(iter(dependencies[{x}]))", norm[0])[0][1]["M_h"])
+            ctx.ob("PAIR.detached-data.forwarded", d, f"{unparse(d)}: data nodes waiting on {x} (requires_data_task[{x}]) are handed to one of its remaining dependencies before {x} leaves the graph", ok, "" if ok else f"a data node shared by several alias leaves is detached, then the aliases are removed: it never receives a priority and order() raises IndexError on an acyclic graph")
+        else:
+            ctx.ob("PAIR.detached-data.registered", d, f"{unparse(d)}", False, f"{x} leaves the graph without a priority and without being registered for one")
+    # ---------------- the key set against which legacy dependencies are resolved must not change under the mapping
+    ins = [s for s in walk_no_nested(order) if isinstance(s, ast.Assign) and unparse(s.targets[0]).startswith("dsk[") and dp and dominates(order, dp[0][0], s)]
+    dm = model.module("dask/_task_spec.py").func("DependenciesMapping.__getitem__")
+    live = [c for c in calls(dm, "get_dependencies") if c.args and unparse(c.args[0]) == "self.dsk"]
+    for s in ins:
+        ctx.ob("EFFECT.keyset-stable", s, f"{unparse(s)} after DependenciesMapping(dsk) was built", not live, "" if not live else "DependenciesMapping resolves legacy tuples against the live dict (get_dependencies(self.dsk, ...)) and drops its cache on every removal: a literal equal to the inserted key turns into a dependency half-way, counts disagree and an acyclic graph is reported as cyclic")
 
 
 VARIANTS = [
